@@ -1,73 +1,50 @@
 (* C04 — Essential object invariants hold for every object kind and every key kind.
    ONLY theorem statements; each is closed by [exact] of a lemma of C04/Proofs*.v.
-   S = ECMA-262 10.1 ordinary object (Model.v, first half); I = goja's baseObject transcribed (second
-   half); fx_cur = the current tree (F1, F2, N2 repaired in /repo), fx_none = the tree before those
-   repairs, fx_all = all five one-line repairs switched on. *)
-From Coq Require Import List Arith NArith Bool Permutation.
+   S = ECMA-262 10.1 ordinary object (Model.v, first half); I = goja's baseObject transcribed from the
+   current tree (second half).  All six C04 findings (F1 F2 N1 N2 N3 N4) are repaired in /repo; the
+   theorems below are full strength. *)
+From Coq Require Import List Arith NArith Bool Permutation Lia.
 Import ListNotations.
-From Verif.C04 Require Import Model Proofs ProofsKeys ProofsSet.
+From Verif.C04 Require Import Model Proofs ProofsKeys ProofsSet ProofsSetEq.
 
 (* ---------------------------------------------------------------------------------------------- *)
-(* 1. The define decision table: goja's _defineOwnProperty (current tree, fx_cur: F1 and N2 repaired by
-      commits 7dd46dd and 8a03683) = ValidateAndApplyPropertyDescriptor, for EVERY existing property
-      (bare value, data, accessor) satisfying the representation invariant and EVERY partial
-      descriptor.  The tree before those commits differed exactly in the regions in_F1 / in_N2. *)
+(* 1. The define decision table: goja's _defineOwnProperty = ValidateAndApplyPropertyDescriptor, for
+      EVERY existing property (bare value, data, accessor) and EVERY partial descriptor; and it keeps
+      the representation invariant of valueProperty (an accessor carries no value and no writable flag,
+      a data property no getter/setter) unconditionally — so the hypothesis [oiprop_wf] holds along
+      every history (define_step_wf), and define on related heaps gives related heaps. *)
 
 Theorem define_eq_spec : forall ext ex d,
   desc_wf d = true -> oiprop_wf ex = true ->
-  option_map absP (GojaDefine fx_cur ext ex d) = ValidateAndApply ext (option_map absP ex) d.
+  option_map absP (GojaDefine ext ex d) = ValidateAndApply ext (option_map absP ex) d.
 Proof. exact Proofs.define_eq_spec. Qed.
 
-Theorem define_prefix_tree_differs_exactly : forall ext ex d,
-  desc_wf d = true -> oiprop_wf ex = true ->
-  (in_F1 ex d || in_N2 ex d = true <->
-   option_map absP (GojaDefine fx_none ext ex d) <> option_map absP (GojaDefine fx_cur ext ex d)).
-Proof. exact Proofs.define_prefix_tree_differs_exactly. Qed.
+Theorem define_wf : forall ext ex d,
+  desc_wf d = true -> oiprop_wf ex = true -> oiprop_wf (GojaDefine ext ex d) = true.
+Proof. exact Proofs.define_wf. Qed.
 
-Theorem define_eq_spec_repaired : forall ext ex d,
-  desc_wf d = true -> oiprop_wf ex = true ->
-  option_map absP (GojaDefine fx_all ext ex d) = ValidateAndApply ext (option_map absP ex) d
-  /\ oiprop_wf (GojaDefine fx_all ext ex d) = true.
-Proof. exact Proofs.define_eq_spec_fixed. Qed.
+Theorem define_step_eq_spec : forall (h : iheap) (hs : heap) o k d,
+  heap_rel h hs -> heap_wf h ->
+  heap_rel (fst (fst (istep h (ODefine o k d)))) (fst (fst (sstep hs (ODefine o k d)))) /\
+  snd (fst (istep h (ODefine o k d))) = snd (fst (sstep hs (ODefine o k d))).
+Proof. exact ProofsSetEq.define_step_eq_spec. Qed.
 
-(* the representation invariant of valueProperty (an accessor carries no value and no writable flag, a
-   data property no getter/setter) — the hypothesis of define_eq_spec — is kept by define on the current
-   tree outside the regions N1 and N3, and broken exactly there (open findings C04-N1, C04-N3); with
-   all repairs on it is kept everywhere (define_eq_spec_repaired) *)
-Theorem define_wf_partial : forall ext ex d,
-  desc_wf d = true -> oiprop_wf ex = true ->
-  in_N1 fx_cur ext ex d = false -> in_N3 fx_cur ext ex d = false ->
-  oiprop_wf (GojaDefine fx_cur ext ex d) = true.
-Proof. exact Proofs.define_wf_partial. Qed.
+Theorem define_step_wf : forall (h : iheap) o k d, heap_wf h -> heap_wf (fst (fst (istep h (ODefine o k d)))).
+Proof. exact ProofsSetEq.define_step_wf. Qed.
 
-Theorem define_wf_guard_exact : forall ext ex d,
-  desc_wf d = true -> oiprop_wf ex = true ->
-  in_N1 fx_cur ext ex d || in_N3 fx_cur ext ex d = true ->
-  oiprop_wf (GojaDefine fx_cur ext ex d) = false.
-Proof. exact Proofs.define_wf_guard_exact. Qed.
-
-(* N1 refuted as a two-step history: data(writable) -> accessor -> {value}: goja reports writable:true *)
-Theorem define_hidden_writable_refuted :
-  exists ip, n1_step1 = Some ip /\ iprop_wf ip = false /\
-    option_map absP (GojaDefine fx_cur true (Some ip) (d_value_only (VNum 2))) = Some (PData (VNum 2) true true true) /\
-    ValidateAndApply true (Some (absP ip)) (d_value_only (VNum 2)) = Some (PData (VNum 2) false true true).
-Proof. exact Proofs.define_hidden_writable_refuted. Qed.
-
-(* N3 refuted: accessor -> {writable:true} leaves the getter installed on a "data" property *)
-Theorem define_stale_getter_refuted :
-  exists p, GojaDefine fx_cur true (Some n3_existing) (mkDesc None (Some true) None None None None) = Some (IProp p)
-            /\ vp_accessor p = false /\ vp_getter p = Some 0 /\ vprop_wf p = false.
-Proof. exact Proofs.define_stale_getter_refuted. Qed.
-
-(* non-vacuity: a non-trivial point (a non-configurable, writable data property is made non-writable and
-   given a new value); the former F1 / N2 inputs are now refused as the specification demands *)
+(* non-vacuity: a non-trivial point of the table, and the inputs of the repaired defects F1, N2, N1, N3
+   now give what the specification demands *)
 Example define_eq_spec_nonvacuous :
   let ex := Some (IProp (mkVP (Some (VNum 1)) true false true false None None)) in
   let d := mkDesc (Some (VNum 2)) (Some false) None None None None in
   desc_wf d = true /\ oiprop_wf ex = true /\
-  option_map absP (GojaDefine fx_cur true ex d) = Some (PData (VNum 2) false true false) /\
-  GojaDefine fx_cur true (Some f1_existing) f1_desc = None /\ in_F1 (Some f1_existing) f1_desc = true /\
-  GojaDefine fx_cur true (Some n2_existing) n2_desc = None /\ in_N2 (Some n2_existing) n2_desc = true.
+  option_map absP (GojaDefine true ex d) = Some (PData (VNum 2) false true false) /\
+  GojaDefine true (Some f1_existing) f1_desc = None /\
+  GojaDefine true (Some n2_existing) n2_desc = None /\
+  option_map absP (GojaDefine true (GojaDefine true (Some (IBare (VNum 1))) (mkDesc None None (Some (Some 0)) None None None))
+                              (d_value_only (VNum 2))) = Some (PData (VNum 2) false true true) /\
+  GojaDefine true (Some n3_existing) (mkDesc None (Some true) None None None None)
+    = Some (IProp (mkVP (Some VUndef) true true false false None None)).
 Proof. vm_compute. repeat split. Qed.
 
 (* ---------------------------------------------------------------------------------------------- *)
@@ -148,12 +125,22 @@ Example ownkeys_order_nonvacuous :
 Proof. vm_compute. repeat split. Qed.
 
 (* ---------------------------------------------------------------------------------------------- *)
-(* 4. [[Set]] with a receiver.  In S, whatever the target and its prototype chain, OrdinarySet changes
-      no object other than the receiver and calls at most one setter, with this = receiver.  The same
-      receiver-only property is proved for goja's own walk (setOwnStr / _setForeignStr / _setForeignIdx /
-      setForeignSym and Object.setStr/setIdx/setSym transcribed) for all heaps and all key kinds on the
-      current tree; the guarded form shows that on the tree before commit 3750984 it held exactly for
-      non-symbol keys (F2), and the former F2 input now agrees with S. *)
+(* 4. [[Set]]: goja's Object.setStr/setIdx/setSym over setOwnStr/setOwnSym and
+      _setForeignStr/_setForeignIdx/setForeignSym (transcribed, including setForeignIdx's shortcut on
+      idxPropCount = 0) equals OrdinarySet / OrdinarySetWithOwnDescriptor: on heaps that describe the same
+      objects (heap_rel), for EVERY target, key kind (index passed as number or string, string, symbol),
+      value, receiver and prototype chain — setters and non-writable properties on the chain, receiver
+      inside or outside the chain, accessor / non-writable / missing property on the receiver — the result,
+      the accessor calls and the resulting heaps agree.  Hypotheses: the representation invariant (kept by
+      define: define_step_wf) and soundness of idxPropCount (what idxcount_exact proves of the bookkeeping).
+      Corollaries on both sides: only the receiver can change. *)
+
+Theorem set_eq_spec : forall (h : iheap) (hs : heap) o k num v r,
+  heap_rel h hs -> heap_wf h -> idx_sound h ->
+  heap_rel (fst (fst (istep h (OSet o k num v r)))) (fst (fst (sstep hs (OSet o k num v r)))) /\
+  snd (fst (istep h (OSet o k num v r))) = snd (fst (sstep hs (OSet o k num v r))) /\
+  snd (istep h (OSet o k num v r)) = snd (sstep hs (OSet o k num v r)).
+Proof. exact ProofsSetEq.set_eq_spec. Qed.
 
 Theorem set_only_receiver : forall fuel (h : heap) o k v r,
   (forall j, j <> r -> hget (fst (fst (s_set fuel h o k v r))) j = hget h j) /\
@@ -161,31 +148,38 @@ Theorem set_only_receiver : forall fuel (h : heap) o k v r,
 Proof. exact ProofsSet.s_set_only_receiver. Qed.
 
 Theorem goja_set_only_receiver : forall (h : iheap) o k num v r,
-  forall j, j <> r -> i_dump (ihget (fst (fst (i_set fx_cur h o k num v r))) j) = i_dump (ihget h j).
-Proof. exact ProofsSet.i_set_only_receiver_cur. Qed.
-
-Theorem goja_set_only_receiver_guarded : forall fx (h : iheap) o k num v r,
-  is_sym k && negb (fix_f2 fx) = false ->
-  forall j, j <> r -> i_dump (ihget (fst (fst (i_set fx h o k num v r))) j) = i_dump (ihget h j).
+  forall j, j <> r -> i_dump (ihget (fst (fst (i_set h o k num v r))) j) = i_dump (ihget h j).
 Proof. exact ProofsSet.i_set_only_receiver. Qed.
 
+(* non-vacuity: related, well-formed heaps with a setter and a non-writable property on the chain; the
+   former F2 input (symbol key, receiver = an ancestor of the target) and its string-keyed twin *)
+Example set_eq_spec_nonvacuous :
+  let hi := [mkIObj None true [(KIdx 1, IProp (mkVP None false false true true None (Some 4)))] (mkNames [KIdx 1] 0 0)
+                    [(KSym 0, IProp (mkVP (Some (VNum 1)) false true true false None None))];
+             mkIObj (Some 0) true [] names0 []; mkIObj (Some 1) false [] names0 []] in
+  let hs := [mkObj None true [(KIdx 1, PAcc None (Some 4) true false); (KSym 0, PData (VNum 1) false true true)];
+             mkObj (Some 0) true []; mkObj (Some 1) false []] in
+  (forall i, i < 3 -> i_dump (ihget hi i) = s_dump (hget hs i)) /\
+  snd (fst (istep hi (OSet 2 (KIdx 1) true (VNum 7) 1))) = RBool true /\
+  snd (istep hi (OSet 2 (KIdx 1) true (VNum 7) 1)) = [Ev 4 1 (Some (VNum 7))] /\
+  snd (fst (sstep hs (OSet 2 (KSym 0) false (VNum 7) 2))) = RBool false /\
+  snd (fst (sstep hs (OSet 2 (KStr 0) false (VNum 7) 2))) = RBool false /\
+  snd (fst (sstep hs (OSet 2 (KStr 0) false (VNum 7) 1))) = RBool true.
+Proof. vm_compute. repeat split; intros; repeat (destruct i as [|i]; try reflexivity; try lia). Qed.
+
 Theorem set_f2_case_agrees :
-  map s_dump (fst (fst (sstep f2_sheap f2_op))) = map i_dump (fst (fst (istep fx_cur f2_iheap f2_op)))
-  /\ map s_dump (fst (fst (sstep f2_sheap f2_op))) <> map i_dump (fst (fst (istep fx_none f2_iheap f2_op))).
+  map s_dump (fst (fst (sstep f2_sheap f2_op))) = map i_dump (fst (fst (istep f2_iheap f2_op))).
 Proof. exact ProofsSet.set_f2_case_agrees. Qed.
 
 Theorem set_str_twin_agrees :
   let op := OSet 2 (KStr 0) false (VNum 3) 1 in
-  map s_dump (fst (fst (sstep f2_sheap op))) = map i_dump (fst (fst (istep fx_cur f2_iheap op))).
+  map s_dump (fst (fst (sstep f2_sheap op))) = map i_dump (fst (fst (istep f2_iheap op))).
 Proof. exact ProofsSet.set_str_twin_agrees. Qed.
 
 Print Assumptions define_eq_spec.
-Print Assumptions define_prefix_tree_differs_exactly.
-Print Assumptions define_eq_spec_repaired.
-Print Assumptions define_wf_partial.
-Print Assumptions define_wf_guard_exact.
-Print Assumptions define_hidden_writable_refuted.
-Print Assumptions define_stale_getter_refuted.
+Print Assumptions define_wf.
+Print Assumptions define_step_eq_spec.
+Print Assumptions define_step_wf.
 Print Assumptions essential_invariants.
 Print Assumptions nonextensible_invariants.
 Print Assumptions frozen_is_final.
@@ -195,8 +189,8 @@ Print Assumptions ownkeys_unique.
 Print Assumptions ownkeys_same_set.
 Print Assumptions idxcount_exact.
 Print Assumptions sort_idx_is_sorted.
+Print Assumptions set_eq_spec.
 Print Assumptions set_only_receiver.
 Print Assumptions goja_set_only_receiver.
-Print Assumptions goja_set_only_receiver_guarded.
 Print Assumptions set_f2_case_agrees.
 Print Assumptions set_str_twin_agrees.
